@@ -23,6 +23,9 @@ pub struct Cell<'a> {
     pub reuse_on: bool,
     pub buf_len: usize,
     pub storage: usize,
+    /// the receiver is CONFIGURED for 16-byte PDUs but owns a larger buffer too (a 16-byte buffer on top of the
+    /// pool is used up and kept by the application first): its storage can hold the PDU
+    mixed: bool,
 }
 
 /// run one cell; returns a short outcome class for counters
@@ -31,7 +34,21 @@ pub fn run_cell(c: &Cell, big: &mut Vec<u8>, rep: &mut Report, replay: &dyn Fn()
     if !c.reuse_on {
         enc.disable_re_use_label();
     }
-    let mut dec = plain_dec(1, c.storage, 1, c.storage, MandTable::none());
+    let mixed = c.mixed && c.pdu.len() > 16 && c.storage >= c.pdu.len();
+    let mut dec = if mixed {
+        // configured PDU size 16; pool (bottom to top): the large buffer, a 16-byte buffer
+        let mut d = plain_dec(1, 16, 0, 16, MandTable::none());
+        let _ = d.provision_storage(vec![0u8; c.storage].into_boxed_slice());
+        let _ = d.provision_storage(vec![0u8; 16].into_boxed_slice());
+        if !c.prime {
+            // a tiny broadcast packet uses the 16-byte buffer up; the application keeps it
+            let tiny = crate::hostile::mk_complete(2, &[], 0x0800, b"tiny");
+            let _ = dec_guard(&mut d, &tiny);
+        }
+        d
+    } else {
+        plain_dec(1, c.storage, 1, c.storage, MandTable::none())
+    };
     let meta = EncapMetadata::new(c.ptype, c.label);
     let cls = |what: &str| format!("{}:{}{}{}", what, label_kind_name(&c.label), if c.prime { "+primed" } else { "" }, if c.reuse_on { "" } else { ":reuse-off" });
     if c.prime {
@@ -42,7 +59,10 @@ pub fn run_cell(c: &Cell, big: &mut Vec<u8>, rep: &mut Report, replay: &dyn Fn()
         };
         match dec_guard(&mut dec, &b[..n]) {
             Ok(Ok((DecapStatus::CompletedPkt(buf, _), _))) => {
-                give_back(&mut dec, buf);
+                // (mixed pool: the application keeps the 16-byte buffer that carried the priming packet)
+                if !mixed {
+                    give_back(&mut dec, buf);
+                }
             }
             _ => return "prime-decap-failed",
         }
@@ -141,7 +161,7 @@ impl Property for C01 {
         "C01"
     }
     fn rule(&self) -> &'static str {
-        "grid: key = PDU length 0..=4100; for each: 5 label cases (6-byte, 3-byte, broadcast, 6-byte primed, 3-byte primed = re-use substitution when enabled) x 7 buffer sizes (exact-1, exact, exact+1 for the label as written, 4097, 4098, 65536, 70000) x re-use on/off x storage (== PDU, +1, 70000); random: seeded cells over all protocol types >= 0x0600, 5 content classes, random buffer/storage; longrun: 800 complete packets with one label under re-use limits 0,1,2,3,254,255; traffic: the round trip of a complete packet at the end of a seeded lock-step history (fragment trains in flight or completed in between, re-use substitutions, resets, configuration changes, end packets re-sent from stale contexts which the receiver refuses); ptypes (thorough): every protocol type 0x0600..=0xFFFF at three PDU sizes. Non-trivial = encap returned a completed packet that was fed to decap and compared (outcome 'delivered'); fingerprint = (pdu length, label case, buffer, re-use, storage) or (ptype,size)."
+        "grid: key = PDU length 0..=4100; for each: 5 label cases (6-byte, 3-byte, broadcast, 6-byte primed, 3-byte primed = re-use substitution when enabled) x 7 buffer sizes (exact-1, exact, exact+1 for the label as written, 4097, 4098, 65536, 70000) x re-use on/off x storage (== PDU, +1, 70000; one cell in seven on a receiver configured for 16-byte PDUs that also owns a buffer of that size, after its 16-byte buffer was used up); random: seeded cells over all protocol types >= 0x0600, 5 content classes, random buffer/storage; longrun: 800 complete packets with one label under re-use limits 0,1,2,3,254,255; traffic: the round trip of a complete packet at the end of a seeded lock-step history (fragment trains in flight or completed in between, re-use substitutions, resets, configuration changes, end packets re-sent from stale contexts which the receiver refuses); ptypes (thorough): every protocol type 0x0600..=0xFFFF at three PDU sizes. Non-trivial = encap returned a completed packet that was fed to decap and compared (outcome 'delivered'); fingerprint = (pdu length, label case, buffer, re-use, storage) or (ptype,size)."
     }
     fn gens(&self, cx: &Cx) -> Vec<Gen> {
         let mut g = vec![Gen { name: "grid", count: 4101, exhaustive: true }, Gen { name: "random", count: cx.n(100_000, 6_000_000), exhaustive: false }];
@@ -182,7 +202,7 @@ impl Property for C01 {
                                     continue;
                                 }
                                 let ptype = [0x0600u16, 0xFFFF, 0x0800, 0x86DD][(plen + bi) % 4];
-                                let cell = Cell { pdu: &pdu, ptype, label: *label, prime: *prime, reuse_on, buf_len: *buf_len, storage: *storage };
+                                let cell = Cell { pdu: &pdu, ptype, label: *label, prime: *prime, reuse_on, buf_len: *buf_len, storage: *storage, mixed: (plen + bi + si) % 7 == 0 };
                                 let out = run_cell(&cell, &mut big, rep, &replay);
                                 rep.count(&format!("grid.{}", out));
                                 if out == "delivered" {
@@ -223,7 +243,8 @@ impl Property for C01 {
                     _ => rng.range(plen, 70000),
                 };
                 let ptype = gen_user_ptype(&mut rng);
-                let cell = Cell { pdu: &pdu, ptype, label, prime, reuse_on, buf_len, storage };
+                let mixed = rng.chance(1, 6);
+                let cell = Cell { pdu: &pdu, ptype, label, prime, reuse_on, buf_len, storage, mixed };
                 let out = run_cell(&cell, &mut big, rep, &replay);
                 rep.count(&format!("random.{}", out));
                 if out == "delivered" {
@@ -279,7 +300,13 @@ impl Property for C01 {
                 // the round trip inside traffic: a seeded lock-step history (complete packets, fragment trains in
                 // flight and completed later, re-use substitutions, resets) and then one complete packet
                 use super::labelops::{random_op, Exec, Op, Outcome, LABELS};
-                let mut ex = Exec::new(true);
+                // one history in four: a receiver with one or two storage buffers whose application keeps every 1st / 2nd
+                // delivered buffer (packets are then refused for lack of storage until the final provision)
+                let scarce = rng.chance(1, 4);
+                let mut ex = if scarce { Exec::with_buffers(true, 1 + rng.below(2)) } else { Exec::new(true) };
+                if scarce {
+                    ex.keep_every = 1 + rng.below(2) as u64;
+                }
                 let n = 2 + rng.below(10);
                 let mut ops: Vec<Op> = Vec::new();
                 let mut sink = Report::new();
@@ -296,12 +323,15 @@ impl Property for C01 {
                         return;
                     }
                 }
-                if ex.rx_errors > 0 {
-                    // the receiver rejected something (e.g. an unresolvable explicit re-use label): the two label
-                    // memories may legitimately differ, the final round trip would not be conclusive
-                    rep.count("traffic.skipped-receiver-rejected-earlier");
-                    return;
+                // the receiver refused something for a legitimate reason (an unresolvable explicit re-use label, no
+                // storage left): the two label memories may differ, so the final packet may be refused - but if it
+                // is delivered, it is delivered with every field right
+                let out_of_step = ex.rx_errors > 0;
+                if out_of_step {
+                    rep.count("traffic.receiver-refused-earlier");
                 }
+                // "a decapsulator whose storage can hold the PDU"
+                let _ = ex.dec.as_mut().unwrap().provision_storage(vec![0u8; 64].into_boxed_slice());
                 let li = [0usize, 1, 2, 3, 4][rng.below(5)];
                 let label = LABELS[li];
                 let plen = rng.below(21);
@@ -328,7 +358,8 @@ impl Property for C01 {
                             rep.sample(|| format!("traffic: after [{}] a complete packet with label {} (label type bits {}) is delivered with that label", hist(), label_str(&label), lt));
                         }
                     }
-                    other => rep.violation("C01", format!("fidelity-in-traffic:{}{}", label_kind_name(&label), if lt == 3 { "+substituted" } else { "" }), || format!("after the history [{}] (every packet accepted by the receiver), encap(pdu {}B, label {}, type {:#06x}) = CompletedPkt({}) but decap returns {}", hist(), plen, label_str(&label), ptype, nrep, dec_res_str(other)), &replay),
+                    Ok(Err(_)) if out_of_step => rep.count("traffic.refused-after-losing-step"),
+                    other => rep.violation("C01", format!("fidelity-in-traffic:{}{}{}", label_kind_name(&label), if lt == 3 { "+substituted" } else { "" }, if out_of_step { "+after-a-refused-packet" } else { "" }), || format!("after the history [{}] (every packet accepted by the receiver), encap(pdu {}B, label {}, type {:#06x}) = CompletedPkt({}) but decap returns {}", hist(), plen, label_str(&label), ptype, nrep, dec_res_str(other)), &replay),
                 }
             }
             "ptypes" => {
@@ -336,7 +367,7 @@ impl Property for C01 {
                 for plen in [0usize, 26, 4087] {
                     let pdu = gen_pdu(&mut rng, plen, 0);
                     let label = gen_label(&mut rng, (key % 5) as usize);
-                    let cell = Cell { pdu: &pdu, ptype, label, prime: false, reuse_on: true, buf_len: 4 + 6 + plen, storage: plen };
+                    let cell = Cell { pdu: &pdu, ptype, label, prime: false, reuse_on: true, buf_len: 4 + 6 + plen, storage: plen, mixed: false };
                     let out = run_cell(&cell, &mut big, rep, &replay);
                     rep.count(&format!("ptypes.{}", out));
                     if out == "delivered" {
